@@ -68,6 +68,19 @@ ShapeEq(A, B) ==
   /\ Len(A) = Len(B)
   /\ \A i \in 1..Len(A) : A[i].k = B[i].k /\ A[i].t = B[i].t
 
+(* 1b. "comments removed": a comment may disappear, but a comment that is kept (KeepComments,
+      KeepSpecialComments) is still part of "the same document": it stays between the same two
+      element boundaries (its text may change: the markup inside a conditional comment is minified).
+      CommentGaps = for every comment node the number of element boundaries before it. *)
+CommentGaps(ev) ==
+  FoldLeft(LAMBDA a, e : IF e.k = "M" THEN [a EXCEPT !.g = Append(a.g, a.n)]
+                         ELSE IF e.k = "T" THEN a ELSE [a EXCEPT !.n = a.n + 1],
+           [n |-> 0, g |-> <<>>], ev).g
+CountIn(s, x) == Cardinality({i \in 1..Len(s) : s[i] = x})
+CommentEq(in, out) ==
+  LET gi == CommentGaps(in)  go == CommentGaps(out) IN
+  \A j \in 1..Len(go) : CountIn(go, go[j]) <= CountIn(gi, go[j])
+
 (* 2. "runs of inter-word whitespace collapsed or trimmed ... never touching pre/textarea or
       unminified raw-text content": text between the same two element boundaries has the same
       words; inside pre/textarea/listing and raw text elements (no sub-minifier is registered by
@@ -209,5 +222,5 @@ AttrEq(A, Bn) == \A i \in 1..Len(A) : A[i].k = "O" => AttrsOK(A[i].t, A[i].a, Bn
 
 HtmlEq(in, out) ==
   LET A == Norm(in)  Bn == Norm(out) IN
-  ShapeEq(A, Bn) /\ TextEq(A, Bn) /\ RenderEq(A, Bn) /\ AttrEq(A, Bn)
+  ShapeEq(A, Bn) /\ CommentEq(in, out) /\ TextEq(A, Bn) /\ RenderEq(A, Bn) /\ AttrEq(A, Bn)
 =============================================================================
